@@ -68,6 +68,9 @@ class FuseBiasMHA(pattern.RewriteRuleClassBase):
         has_q_bias,
         has_k_bias,
         has_v_bias,
+        q_bias=None,
+        k_bias=None,
+        v_bias=None,
         **_,
     ) -> pattern.MatchResult:  # type: ignore[name-defined]
         check_result = pattern.MatchResult()
@@ -115,6 +118,21 @@ class FuseBiasMHA(pattern.RewriteRuleClassBase):
             return check_result.fail(
                 "Could not determine the hidden sizes of query, key, and value.",
             )
+
+        # The addends are concatenated into MHA's bias input: each must be a 1-D tensor whose
+        # length is the hidden size of its projection (not e.g. a [B, S, D] tensor added to it).
+        for has_bias, bias, hidden_size in (
+            (has_q_bias, q_bias, self.Dh_q),
+            (has_k_bias, k_bias, self.Dh_k),
+            (has_v_bias, v_bias, self.Dh_v),
+        ):
+            if has_bias and (
+                bias is None
+                or bias.shape is None
+                or bias.shape.rank() != 1
+                or bias.shape[0] != hidden_size
+            ):
+                return check_result.fail("Bias is not a 1-D tensor of the hidden size.", bias)
 
         return check_result
 
